@@ -143,6 +143,12 @@ def first_occurrence_idents(text):
     return seen
 
 
+def rename_line(line, ren):
+    """token-aware renaming of one line of ghost text (see rename_contract)"""
+    import types
+    return rename_contract(types.SimpleNamespace(clauses=[('x', [line])], loops=[], inserts=[], body_prefix=[], closures=[]), ren).clauses[0][1][0]
+
+
 def rename_contract(c, ren):
     import copy
     def f(line):
@@ -364,8 +370,11 @@ class Unit:
         self.current_renames = self._inferred_renames(key)
         if self.current_renames:
             self.fn_renames[key] = dict(self.current_renames)
+        from . import rules as _rules
+        _rules.CURRENT['renames'] = dict(self.current_renames or {})    # for ghost text that rules bring along (closure contracts)
         for r in rules:
             text = r(self, key, text)
+        _rules.CURRENT['renames'] = {}
         c = self.contracts.get(key)
         if c is not None:
             c.used = True
